@@ -18,6 +18,7 @@ type l1State struct {
 	orderOK  bool // every node was consulted only after all its ancestors accepted
 	onceOK   bool // no node was consulted twice
 	extNodes []*MIME
+	epoch    int // input number: every input has its own verdict vector
 	// capture mode (L2 harnesses): detectors reject everything and record what the first one received
 	allFalse bool
 	captured bool
@@ -78,10 +79,28 @@ func (s *l1State) detectorFor(i int) func([]byte, uint32) bool {
 			return s.verdict[i]
 		}
 		s.asked[i] = true
-		s.verdict[i] = vBool("det" + l1Itoa(i))
+		s.verdict[i] = vBool(s.detName(i))
 		s.order = append(s.order, i)
 		return s.verdict[i]
 	}
+}
+
+func (s *l1State) detName(i int) string {
+	if s.epoch == 0 {
+		return "det" + l1Itoa(i)
+	}
+	return "in" + l1Itoa(s.epoch) + "det" + l1Itoa(i)
+}
+
+// nextInput starts a new input: a fresh, independent verdict vector.
+func (s *l1State) nextInput(raw []byte) {
+	s.epoch++
+	for i := range s.asked {
+		s.asked[i] = false
+		s.verdict[i] = false
+	}
+	s.order = nil
+	s.raw = raw
 }
 
 // l1Setup stubs every detector of the current tree (root excluded: it accepts everything).
@@ -118,7 +137,7 @@ func (s *l1State) verdictOf(n *MIME) bool {
 	i := s.index[n]
 	if !s.asked[i] {
 		s.asked[i] = true
-		s.verdict[i] = vBool("det" + l1Itoa(i))
+		s.verdict[i] = vBool(s.detName(i))
 	}
 	return s.verdict[i]
 }
@@ -274,4 +293,28 @@ func l1DFSFind(n *MIME, name string) *MIME {
 		}
 	}
 	return nil
+}
+
+// HC03Seq: two detections of two different inputs (independent verdict vectors) in one process:
+// the second result is again exactly the first-match path for the second input, with the
+// extension and ancestors of the node the walk ended on (several registered nodes share a MIME
+// string), and the value returned first keeps its chain.
+func HC03Seq() {
+	s := l1Setup()
+	in1, in2 := []byte("x"), []byte("yz")
+	old := readLimit
+	SetLimit(3072)
+	s.raw, s.limit = in1, 3072
+	r1 := Detect(in1)
+	want1 := s.oracleWalk()
+	l1CheckChain(r1, want1, "first")
+	snap1 := c14Snapshot(r1)
+	s.nextInput(in2)
+	r2 := Detect(in2)
+	want2 := s.oracleWalk()
+	SetLimit(old)
+	l1CheckChain(r2, want2, "second")
+	vAssert(c14Same(c14Snapshot(r1), snap1), "first-result-unaffected-by-second-detection")
+	vAssert(s.argsOK && s.orderOK, "second:detectors-get-match-arguments")
+	vReach("end")
 }
